@@ -42,7 +42,7 @@ def cases(tier, rng):
     for j in range(250 if tier == "quick" else 8000):
         key = rng.randrange(1, N); msg = rng.choice(msgs[:14] + ["m%d" % j])
         mut = rng.choice(["none", "flip_r", "flip_s", "hdr", "hdr35", "hdr26", "hdr_any", "hdr_plus2", "hdr_plus2", "small_r", "random", "other_msg",
-                          "other_addr", "flip_class", "s_neg"])
+                          "other_addr", "flip_class", "s_neg", "size"])
         yield {"k": "rej", "net": rng.choice(["mainnet", "testnet"]), "key": key, "msg": msg, "comp": rng.random() < 0.5, "mut": mut,
                "bit": rng.randrange(256), "h": rng.randrange(256), "rnd": rand_hex(rng, 65)}
 
@@ -85,6 +85,7 @@ def _triple(d):
     elif m == "other_msg": msg = msg + "!"
     elif m == "other_addr": addr = _ref_addr(dict(d, key=(d["key"] % (N - 1)) + 1))
     elif m == "flip_class": sig[0] = sig[0] + 4 if sig[0] < 31 else sig[0] - 4
+    elif m == "size": sig = [sig[:64], sig + sig[-1:], sig[:1], bytearray(), sig[1:], sig + bytearray(32)][d["bit"] % 6]   # not 65 bytes
     elif m == "s_neg": sig[33:] = (N - int.from_bytes(sig[33:], "big")).to_bytes(32, "big")
     return addr, bytes(sig), msg
 
@@ -157,6 +158,7 @@ def oracle(d):
         return "interop=1,hdr_class=1,addr_ok=1|verify=1|rec=%s|rec2=1|det=1" % (pub if d["msg"] else "EMPTY")
     # acceptance = a libsecp256k1-based recovery accepts the triple
     addr, sig, msg = _triple(d)
+    if len(sig) != 65: return "0"
     h = sig[0]
     if not (27 <= h <= 34): return "0"
     try:
